@@ -24,6 +24,10 @@ type Case struct {
 
 var inserts = []string{"/*k*/ ", "//k\n", "# k\n"}
 
+// non-ASCII comment texts, among them characters whose last UTF-8 byte is 0x85 or 0xA0 (bytes that look like
+// white space when taken for code points); inserted into small sources only
+var insertsUnicode = []string{"//voil\u00e0\n", "# \u00c5\n", "/*\u4f60\n\u00e0*/ ", "//\u00e9 \u597d\n"}
+
 func (k Case) src() fmtx.Src {
 	if k.At < 0 {
 		return fmtx.Src{Name: k.Name, Text: k.Text}
@@ -82,6 +86,11 @@ func main() {
 			for _, at := range bs {
 				for _, ins := range inserts {
 					run(Case{Name: s.Name, Text: s.Text, At: at, Kind: ins})
+				}
+				if len(bs) <= 13 || i < nSeeds {
+					for _, ins := range insertsUnicode {
+						run(Case{Name: s.Name, Text: s.Text, At: at, Kind: ins})
+					}
 				}
 			}
 			// two comments at every pair of boundaries (small sources and all hand seeds): the printer's
